@@ -124,13 +124,54 @@ def _extra_of(keys, is_leaf, path):
     return format(int.from_bytes(h[:2], 'big'), '016b'), []
 
 
+def _refleaf(v):
+    return rc.RCell(format(v & 0xFFFF, '016b') + '1', [], False)
+
+
+def _extra_of_r(keys, is_leaf, path):
+    # extras whose top bit says 'a reference follows' (block.tlb: ahmn_fork left:^ right:^ extra:Y - the references of Y come
+    # AFTER the two children; ahmn_leaf extra:Y value:X - those of Y come BEFORE those of X)
+    bits, _ = _extra_of(keys, is_leaf, path)
+    return bits, ([_refleaf(int(bits, 2) ^ 0x5555)] if bits[0] == '1' else [])
+
+
+def _mapping_r(case):
+    # values whose top bit says 'a reference follows'
+    n = case['n']
+    out = {}
+    for k, v in case['pairs']:
+        v &= 0xFFFF
+        out[format(k % (1 << n), '0%db' % n)] = (format(v, '016b'), [_refleaf(v ^ 0x3333)] if v >> 15 else [])
+    return out
+
+
+def _rd_r(s):
+    v = s.load_uint(16)
+    if v >> 15:
+        return v, s.load_ref().hash.hex()
+    return v, None
+
+
+def _exp_r(v, xor):
+    return (v, _refleaf(v ^ xor).repr_hash().hex() if v >> 15 else None)
+
+
 def check_canonical(case):
     from pytoniq_core.boc.hashmap.hashmap import HashMap
     n = case['n']
     mapping = _mapping(case)
     hm = HashMap(n).with_uint_values(16)
+    kf = case.get('kf', 0)
     for k, (vb, _) in mapping.items():
-        hm.set(int(k, 2), int(vb, 2))
+        ki = int(k, 2)
+        # the key in one of the spellings HashMap.set takes by VALUE: int, bit string, bytes (the only byte spelling of a key
+        # whose width is not a multiple of 8 is longer than the key), with or without surplus leading zeros
+        key = [ki, k, ki.to_bytes((n + 7) // 8, 'big'), ki.to_bytes((n + 7) // 8 + 1 + ki % 2, 'big'), '0' * (1 + ki % 5) + k][kf]
+        ok, r = call(hm.set, key, int(vb, 2))
+        if not ok:
+            if kf in (0, 1) or (kf == 2 and n % 8 == 0):
+                return Fail(f'set-raises-on-valid-key/form{kf}', f'{exc_sig(r)} n={n}')
+            hm.set(ki, int(vb, 2))              # refusing an over-long spelling is fine
     try:
         ref = refdict.build(mapping, n)
     except rc.RefCellError:
@@ -219,20 +260,26 @@ def check_aug(case):
     from pytoniq_core.boc.hashmap.parse import parse_hashmap_aug
     from pytoniq_core.boc.builder import Builder
     n = case['n']
-    mapping = _mapping(case)
+    with_refs = bool(case.get('refs'))
+    mapping = _mapping_r(case) if with_refs else _mapping(case)
     prune = _pruner(case)
     info = {}
     try:
-        ref = refdict.build(mapping, n, kind_of=_kind_chooser(case), extra_of=_extra_of, prune=prune, info=info)
+        ref = refdict.build(mapping, n, kind_of=_kind_chooser(case), extra_of=_extra_of_r if with_refs else _extra_of, prune=prune, info=info)
     except rc.RefCellError:
         return None
     keep = set(info['keys'])
-    exp = {int(k, 2): int(mapping[k][0], 2) for k in keep}
-    exp_extras = Counter(int(eb, 2) for _, eb in info['extras'])
+    if with_refs:
+        exp = {int(k, 2): _exp_r(int(mapping[k][0], 2), 0x3333) for k in keep}
+        exp_extras = Counter(_exp_r(int(eb, 2), 0x5555) for _, eb in info['extras'])
+        xd = yd = _rd_r
+    else:
+        exp = {int(k, 2): int(mapping[k][0], 2) for k in keep}
+        exp_extras = Counter(int(eb, 2) for _, eb in info['extras'])
+        xd = lambda s: s.load_uint(16)
+        yd = lambda s: s.load_uint(16)
     cell = dag.lib_from_rcell(ref)
-    xd = lambda s: s.load_uint(16)
-    yd = lambda s: s.load_uint(16)
-    tag = ('pruned' if prune and len(keep) < len(mapping) else 'full')
+    tag = ('pruned' if prune and len(keep) < len(mapping) else 'full') + ('/extras-with-refs' if with_refs else '')
     readers = {
         'parse_hashmap_aug': lambda: parse_hashmap_aug(cell.begin_parse(), n, xd, yd),
         'load_hashmap_aug': lambda: cell.begin_parse().load_hashmap_aug(n, xd, yd),
@@ -256,7 +303,7 @@ WIDTHS = [1, 2, 3, 4, 5, 8, 16, 32, 64, 256, 267, 900]
 
 
 @st.composite
-def st_tree(draw, kinds=False, prune=False):
+def st_tree(draw, kinds=False, prune=False, refs=False, keyforms=False):
     n = draw(st.one_of(st.sampled_from(WIDTHS), st.integers(1, 990)))
     cnt = draw(st.integers(1, 24 if n > 4 else min(24, 1 << n)))
     base = draw(st.integers(0, (1 << n) - 1))
@@ -269,6 +316,10 @@ def st_tree(draw, kinds=False, prune=False):
         case['kinds'] = draw(st.lists(st.integers(0, 3), min_size=1, max_size=4))
     if prune:
         case['prune'] = [draw(st.sampled_from([10, 25, 50])), draw(st.integers(0, 1000))]
+    if refs and draw(st.booleans()):
+        case['refs'] = 1
+    if keyforms:
+        case['kf'] = draw(st.sampled_from([0, 0, 1, 2, 3, 4]))
     return case
 
 
@@ -292,6 +343,10 @@ def classify(case):
         yield 'free-label-kinds'
     if case.get('prune'):
         yield 'pruning'
+    if case.get('refs'):
+        yield 'values-and-extras-carry-references'
+    if 'kf' in case:
+        yield 'key-spelling=' + ['int', 'bits', 'bytes-ceil', 'bytes-long', 'bits-long'][case['kf']]
     try:
         kinds = []
         refdict.decode(refdict.build(_mapping(case), n, kind_of=_kind_chooser(case)), n, kinds=kinds)
@@ -309,14 +364,14 @@ def nt(case):
 SUBCHECKS = [
     Sub('a-label-kind-all-triples', check_label, enum=enum_labels, classify=classify, nontrivial=nt, shards=(16, 48),
         exhaustive=True, note='every (max_len, len, fill): quick grid / thorough complete'),
-    Sub('b-canonical-tree-hash', check_canonical, strategy=lambda tier: st_tree(), classify=classify, nontrivial=nt,
+    Sub('b-canonical-tree-hash', check_canonical, strategy=lambda tier: st_tree(keyforms=True), classify=classify, nontrivial=nt,
         n=(1500, 40000), shards=(8, 32)),
     Sub('c-parsers-free-label-kinds', check_parsers, strategy=lambda tier: st_tree(kinds=True), classify=classify, nontrivial=nt,
         n=(1500, 30000), shards=(8, 32)),
-    Sub('d-augmented', check_aug, strategy=lambda tier: st_tree(kinds=True), classify=classify, nontrivial=nt,
+    Sub('d-augmented', check_aug, strategy=lambda tier: st_tree(kinds=True, refs=True), classify=classify, nontrivial=nt,
         n=(1000, 20000), shards=(8, 32)),
     Sub('e-pruned-plain', check_parsers, strategy=lambda tier: st_tree(kinds=True, prune=True), classify=classify, nontrivial=nt,
         n=(1000, 20000), shards=(8, 32)),
-    Sub('e-pruned-augmented', check_aug, strategy=lambda tier: st_tree(prune=True), classify=classify, nontrivial=nt,
+    Sub('e-pruned-augmented', check_aug, strategy=lambda tier: st_tree(prune=True, refs=True), classify=classify, nontrivial=nt,
         n=(1000, 20000), shards=(8, 32)),
 ]
